@@ -404,6 +404,14 @@ let handle (case : string) (out : string) : unit =
        count ("violated:" ^ pid_name (prule_prop r) ^ ":" ^ name);
        report_fail (pid_name (prule_prop r)) name case
          (Printf.sprintf "event %d: %s" (int_of_nat step) (try List.nth (String.split_on_char ';' out) (int_of_nat step) with _ -> "?")));
+  (* ring view after the removal of a silent successor (Model/FdlRing.v) *)
+  (match rmonitor p (monitor_events mevents) with
+   | [] -> ()
+   | (step, r) :: _ ->
+       let name = (match r with P11_removal_passes_to_next -> "removal_passes_to_next") in
+       count ("violated:" ^ pid_name (rrule_prop r) ^ ":" ^ name);
+       report_fail (pid_name (rrule_prop r)) name case
+         (Printf.sprintf "event %d: %s" (int_of_nat step) (try List.nth (String.split_on_char ';' out) (int_of_nat step) with _ -> "?")));
   if violated = [] then count "monitors:ok"
   else begin
     let seen = Hashtbl.create 8 in
